@@ -132,7 +132,7 @@ for n in ast.walk(tree):
 CONV = {"convert_mass": ["mass"], "convert_length": ["length"], "convert_vel": ["vel"], "convert_acc": ["acc"], "convert_G": []}
 
 
-def tr_func(fn, valparams):
+def tr_func(fn, valparams, pw=False):
     params = [a.arg for a in fn.args.args]
     if fn.args.vararg or fn.args.kwarg or fn.args.kwonlyargs or fn.args.defaults:
         die("%s: unsupported signature" % fn.name)
@@ -153,6 +153,8 @@ def tr_func(fn, valparams):
                 if not (isinstance(n.right, ast.Constant) and n.right.value in (2, 3) and isinstance(n.right.value, int)):
                     die("%s: only **2 and **3 are understood" % fn.name)
                 b = ex(n.left)
+                if pw:       # float ** int is libm pow(): kept abstract (pw2 / pw3) so that the binary64 instance can be given pow's values
+                    return "(pw%d %s)" % (n.right.value, b)
                 return "(nmul N %s %s)" % (b, b) if n.right.value == 2 else "(nmul N (nmul N %s %s) %s)" % (b, b, b)
             op = {ast.Mult: "nmul", ast.Div: "ndiv", ast.Add: "nadd", ast.Sub: "nsub"}.get(type(n.op))
             if not op: die("%s: operator %s" % (fn.name, type(n.op).__name__))
@@ -186,7 +188,7 @@ def tr_func(fn, valparams):
         for u in unitvars:
             if (t, u) in lookups: args.append("%s_%s" % (t, u))
     body = "".join("let %s := %s in\n    " % l for l in locs) + ret
-    return "  Definition %s (%s : T) : T :=\n    %s." % (fn.name, " ".join(args), body), args
+    return "  Definition %s%s (%s : T) : T :=\n    %s." % (fn.name, "_pw" if pw else "", " ".join(args), body), args
 
 
 defs = []
@@ -195,6 +197,69 @@ for name, vp in CONV.items():
     if name not in funcs: die("function %s missing" % name)
     d, a = tr_func(funcs[name], vp)
     defs.append(d); sigs[name] = a
+defs_pw = [tr_func(funcs[name], vp, pw=True)[0] for name, vp in CONV.items()]
+
+
+# ------------------------------------------------------------------ the table entries as Python evaluates them (binary64 expression trees)
+def flit(txt):
+    t = txt.strip().lower()
+    m = re.fullmatch(r"([0-9]*)\.?([0-9]*)(e[-+]?[0-9]+)?", t)
+    if not m or (m.group(1) == "" and m.group(2) == ""): die("float literal %r" % txt)
+    return "%s.%s%s%%float" % (m.group(1) or "0", m.group(2) or "0", m.group(3) or "")
+
+
+def evf(node):
+    """('i', int) or ('f', coq float term): the expression with Python's evaluation order and int/float typing"""
+    if isinstance(node, ast.Constant) and isinstance(node.value, bool): die("bool in table")
+    if isinstance(node, ast.Constant) and isinstance(node.value, int): return ("i", node.value)
+    if isinstance(node, ast.Constant) and isinstance(node.value, float): return ("f", flit(ast.get_source_segment(src, node)))
+    if isinstance(node, ast.Name):
+        if node.id == "G_SI": return ("f", "G_SI_f")
+        die("table expression refers to %s" % node.id)
+
+    def tof(v):
+        if v[0] == "f": return v[1]
+        if abs(v[1]) >= 2 ** 53: die("integer too large for an exact float")
+        return "%d.0%%float" % v[1] if v[1] >= 0 else "(-%d.0)%%float" % -v[1]
+    if isinstance(node, ast.BinOp):
+        a, b = evf(node.left), evf(node.right)
+        if a[0] == "i" and b[0] == "i":
+            if isinstance(node.op, ast.Mult): return ("i", a[1] * b[1])
+            if isinstance(node.op, ast.Add): return ("i", a[1] + b[1])
+            if isinstance(node.op, ast.Sub): return ("i", a[1] - b[1])
+            if isinstance(node.op, ast.Pow) and 0 <= b[1] <= 64: return ("i", a[1] ** b[1])
+            die("integer operator in table not understood (line %d)" % node.lineno)
+        if isinstance(node.op, ast.Pow):
+            if a[0] == "f" and b == ("i", 2): return ("f", "(pw2 %s)" % a[1])
+            if a[0] == "f" and b == ("i", 3): return ("f", "(pw3 %s)" % a[1])
+            die("float power other than **2, **3 in table (line %d)" % node.lineno)
+        op = {ast.Mult: "PrimFloat.mul", ast.Div: "PrimFloat.div", ast.Add: "PrimFloat.add", ast.Sub: "PrimFloat.sub"}.get(type(node.op))
+        if not op: die("operator in table (line %d)" % node.lineno)
+        return ("f", "(%s %s %s)" % (op, tof(a), tof(b)))
+    if (isinstance(node, ast.Call) and isinstance(node.func, ast.Attribute) and isinstance(node.func.value, ast.Name)
+            and node.func.value.id == "math" and node.func.attr == "sqrt" and len(node.args) == 1):
+        a = evf(node.args[0])
+        return ("f", "(PrimFloat.sqrt %s)" % tof(a))
+    if isinstance(node, ast.UnaryOp) and isinstance(node.op, ast.USub):
+        a = evf(node.operand)
+        return ("i", -a[1]) if a[0] == "i" else ("f", "(PrimFloat.opp %s)" % a[1])
+    die("table expression form not understood for float evaluation (line %d)" % getattr(node, "lineno", 0))
+
+
+def tof_top(v):
+    if v[0] == "f": return v[1]
+    return "%d.0%%float" % v[1]
+
+
+tables_f = {}
+G_f = None
+for node in tree.body:
+    if isinstance(node, ast.Assign) and isinstance(node.targets[0], ast.Name):
+        nm = node.targets[0].id
+        if nm == "G_SI": G_f = tof_top(evf(node.value))
+        elif nm in TABLES:
+            tables_f[nm] = [(k.value, tof_top(evf(v))) for k, v in zip(node.value.keys, node.value.values)]
+if G_f is None: die("G_SI float")
 
 # ------------------------------------------------------------------ units_convert_particle
 if "units_convert_particle" not in funcs: die("units_convert_particle missing")
@@ -388,13 +453,47 @@ if ast.dump(cp[3]) != ("Expr(value=Call(func=Attribute(value=Name(id='self', ctx
                        "Name(id='new_t', ctx=Load()), Name(id='new_m', ctx=Load())], ctx=Load())], keywords=[]))"):
     die("convert_particle_units: final update_units((new_l, new_t, new_m))")
 
+# ------------------------------------------------------------------ documented unit names (docstring of Simulation.units, Units.ipynb)
+doc = ast.get_docstring(meth["units_get"]) or ""
+if "Currently supported Units" not in doc: die("Simulation.units docstring: list of supported units not found")
+documented = []
+sect = None
+for line in doc.splitlines():
+    t = line.strip()
+    if t in ("Times:", "Lengths:", "Masses:"):
+        sect = {"Times:": "times_SI", "Lengths:": "lengths_SI", "Masses:": "masses_SI"}[t]; continue
+    if t.startswith("Examples"): sect = None
+    m = re.fullmatch(r"([A-Za-z0-9_]+)\s*:\s*\S.*", t)
+    if sect and m:
+        documented.append((sect, m.group(1)))
+    elif sect and t and not set(t) <= set("-"):
+        die("Simulation.units docstring: line %r in the unit list not understood" % t)
+if len(documented) < 10: die("Simulation.units docstring: too few documented units (%d)" % len(documented))
+nbp = os.path.join(REPO, "ipython_examples", "Units.ipynb")
+notebook_units = []
+if os.path.exists(nbp):
+    import json as _json
+    try:
+        nb = _json.load(open(nbp))
+    except Exception as e:
+        die("Units.ipynb: %r" % (e,))
+    for c in nb.get("cells", []):
+        if c.get("cell_type") != "code": continue
+        code = "".join(c.get("source", []))
+        for mm in re.finditer(r"(?:\.units\s*=\s*\(([^)]*)\)|convert_particle_units\(([^)]*)\))", code):
+            for q in re.findall(r"['\"]([^'\"]+)['\"]", mm.group(1) or mm.group(2)):
+                if not q.isascii(): die("Units.ipynb: non-ascii unit name")
+                notebook_units.append(q)
+for _, nm in documented:
+    if not nm.isascii(): die("non-ascii documented unit")
+
 # ------------------------------------------------------------------ emit
 def zv(v):
     return "(%d, %d, %s)" % (v.q.numerator, v.q.denominator, "true" if v.sq else "false")
 
 
 out = ["(* GENERATED by tools/translate_units.py from rebound/units.py — do not edit *)",
-       "From Coq Require Import ZArith List String.", "From RV Require Import Common.Num.", "Import ListNotations.",
+       "From Coq Require Import ZArith List String PrimFloat.", "From RV Require Import Common.Num.", "Import ListNotations.",
        "Open Scope Z_scope.", "Open Scope string_scope.", "",
        "(* (num, den, is_sqrt): the exact value num/den, or sqrt(num/den), of the source expression (decimal literals read as text) *)",
        "Definition uval : Type := (Z * Z * bool)%type.",
@@ -414,11 +513,28 @@ out.append("Definition setter_fields : list (string * nat) := [%s]." % "; ".join
 out.append("Definition getter_keys : list (string * string) := [%s]." % "; ".join('("%s", "%s")' % x for x in getter_keys))
 out.append("Definition convert_old_fields : list string := [%s]." % "; ".join('"%s"' % x for x in convert_old_fields))
 out.append("Definition guard_fields : list string := [%s]." % "; ".join('"%s"' % x for x in guard_fields))
+out.append("(* unit names as WRITTEN in the documentation: docstring of Simulation.units (table, name) and the strings assigned in ipython_examples/Units.ipynb *)")
+out.append("Definition documented_units : list (list (string * uval) * string) := [%s]." % "; ".join('(%s, "%s")' % x for x in documented))
+out.append("Definition notebook_units : list string := [%s]." % "; ".join('"%s"' % x for x in notebook_units))
 out.append("")
 out.append("(* bodies of the conversion functions; `tbl[unit]` of the source is the argument tbl_unit *)")
 out.append("Section Conv.\n  Context {T : Type} (N : Num T).")
 out += defs
 out.append("End Conv.")
+out.append("")
+out.append("(* the same bodies with `x**2`, `x**3` (libm pow in CPython) kept abstract *)")
+out.append("Section ConvPw.\n  Context {T : Type} (N : Num T) (pw2 pw3 : T -> T).")
+out += defs_pw
+out.append("End ConvPw.")
+out.append("")
+out.append("(* the table entries as binary64 expression trees in Python's evaluation order (decimal literals rounded to nearest as by the Python parser) *)")
+out.append("Section TablesF.\n  Variables (pw2 pw3 : float -> float).")
+out.append("  Definition G_SI_f : float := %s." % G_f)
+for t in TABLES:
+    out.append("  Definition %s_f : list (string * float) := [" % t)
+    out.append(";\n".join('    ("%s", %s)' % kv for kv in tables_f[t]))
+    out.append("  ].")
+out.append("End TablesF.")
 os.makedirs(os.path.join(ROOT, "coq", "Gen"), exist_ok=True)
 p = os.path.join(ROOT, "coq", "Gen", "Units.v")
 new = "\n".join(out) + "\n"
